@@ -41,8 +41,12 @@ OPS = ["pre:A", "pre:B", "pre:X_missing_prerequisite", "pre:A:details",
        "set:weight_cp", "set:range_x", "set:unknown-key", "rate", "emodulus-mindelta"]
 
 
+THOROUGH_K3_DROPPED = ("fit:unknown-model", "set:unknown-key", "fit:segment-name", "fit:method")
+
+
 def bounds(tier):
-    return {"history length k": 2 if tier == "quick" else 3, "operations": OPS, "N": hc.N,
+    return {"history length k": 2 if tier == "quick" else "2 over all operations, 3 over all but " + ", ".join(THOROUGH_K3_DROPPED),
+            "operations": OPS, "N": hc.N,
             "extra": "quick: also the 23 length-3 histories pre:A > emodulus-mindelta > op",
             "scan": "the E(depth) scan is an uninterpreted function of segment data and settings (internals: C05)",
             "outside": "longer histories; relative-cp/plateau fits inside histories (C05/C11); real numerics"}
@@ -51,7 +55,16 @@ def bounds(tier):
 def tasks(tier):
     k = 2 if tier == "quick" else 3
     ts = []
-    for hist in itertools.product(range(len(OPS)), repeat=k):
+    if k == 2:
+        hists = list(itertools.product(range(len(OPS)), repeat=2))
+    else:
+        # thorough: every length-2 history over the full alphabet plus every
+        # length-3 history over the alphabet without four operations that
+        # duplicate the effect of another one (two more raising calls, the
+        # segment given by name, the method keyword)
+        idx3 = [i for i, o in enumerate(OPS) if o not in THOROUGH_K3_DROPPED]
+        hists = list(itertools.product(range(len(OPS)), repeat=2)) + list(itertools.product(idx3, repeat=3))
+    for hist in hists:
         ts.append({"name": "hist:" + ">".join(OPS[i] for i in hist), "fn": "t_history",
                    "args": {"hist": list(hist)}, "max_paths": 40000})
     if k == 2:
